@@ -211,6 +211,7 @@ type vTagSt struct {
 	Convs []string `json:"convs"`
 	RefBy []string `json:"refBy"`
 	Color string   `json:"color"`
+	Text  string   `json:"text"` // the definition as the manager holds it (truth is evaluated on this text)
 }
 
 type vState struct {
@@ -366,7 +367,7 @@ func (s *vScenario) project() (*vState, error) {
 			st.Locks += int(n)
 		}
 		for n, t := range mgr.tags {
-			ts := vTagSt{Def: vDefOfQuery(n, t.definition, s.defs), M: vBits(t.Matches), U: vBits(t.Uncertain), Convs: t.converterNames(), RefBy: []string{}, Color: t.color}
+			ts := vTagSt{Def: vDefOfQuery(n, t.definition, s.defs), M: vBits(t.Matches), U: vBits(t.Uncertain), Convs: t.converterNames(), RefBy: []string{}, Color: t.color, Text: t.definition}
 			for r := range t.referencedBy {
 				ts.RefBy = append(ts.RefBy, r)
 			}
@@ -675,7 +676,7 @@ func (s *vScenario) observe(st *vState) *vObs {
 			}
 			ids := []int{}
 			// evaluate the definition text from scratch (absolute times are relative to the parse's reference time)
-			fresh, perr := query.Parse(st.Tags[n].Def.query())
+			fresh, perr := query.Parse(st.Tags[n].Text)
 			if perr != nil {
 				o.Err = fmt.Sprintf("truth(%s): parse: %v", n, perr)
 				return o
